@@ -196,15 +196,57 @@ pub mod tokio_rustls {
 pub mod rx509 { pub mod x509 {
     use vstd::prelude::*;
     pub struct ASNError { pub x: u8 }
-    pub struct Certificate { pub x: u8 }
+    // the part of a parsed certificate that the role extraction walks: tbs_certificate.value.extensions, a lazily parsed extension list
+    pub struct Constructed<T> { pub value: T }
+    pub struct TbsCertificate { pub extensions: Option<Extensions> }
+    pub struct Certificate { pub tbs_certificate: Constructed<TbsCertificate> }
     pub uninterp spec fn spec_parse(der: crate::tokio_rustls::CertificateDer) -> Option<Certificate>;
     impl Certificate {
         #[verifier::external_body]
         pub fn parse(der: &crate::tokio_rustls::CertificateDer) -> (r: Result<Certificate, ASNError>)
             ensures r matches Ok(c) ==> spec_parse(*der) == Some(c), r is Err ==> spec_parse(*der) is None { unimplemented!() }
     }
+    // `exts`: the extensions the raw content parses to (None: it does not parse)
+    pub struct Extensions { pub ghost exts: Option<Seq<ext::Extension>> }
+    pub struct ExtensionList { pub ghost items: Seq<ext::Extension> }
+    pub struct ExtensionIter { pub ghost rest: Seq<ext::Extension> }
+    // (`ks`: how many items each call of next() skipped - ghost history, so that proofs can name the positions)
+    pub struct FilterMapped<F> { pub ghost rest: Seq<ext::Extension>, pub ghost ks: Seq<int>, pub f: F }
+    impl Extensions {
+        #[verifier::external_body]
+        pub fn parse(&self) -> (r: Result<ExtensionList, ASNError>)
+            ensures r matches Ok(l) ==> self.exts == Some(l.items), r is Err ==> self.exts is None { unimplemented!() }
+    }
+    impl ExtensionList {
+        #[verifier::external_body]
+        pub fn into_iter(self) -> (r: ExtensionIter) ensures r.rest == self.items { unimplemented!() }
+    }
+    impl ExtensionIter {
+        // Iterator::filter_map over the extension list (std documentation): the adapter keeps the closure and the items still to be visited
+        #[verifier::external_body]
+        pub fn filter_map<F: Fn(ext::Extension) -> Option<&'static str>>(self, f: F) -> (r: FilterMapped<F>)
+            ensures r.rest == self.rest, r.f == f, r.ks.len() == 0 { unimplemented!() }
+    }
+    impl<F: Fn(ext::Extension) -> Option<&'static str>> FilterMapped<F> {
+        // next(): skips the items the closure maps to None, yields the first it maps to Some(v) (or None at the end)
+        #[verifier::external_body]
+        pub fn next(&mut self) -> (r: Option<&'static str>)
+            requires forall|e: ext::Extension| old(self).f.requires((e,)),
+            ensures final(self).f == old(self).f, final(self).ks.len() == old(self).ks.len() + 1, final(self).ks.drop_last() == old(self).ks,
+                ({ let k = final(self).ks.last();
+                   0 <= k <= old(self).rest.len()
+                   && (forall|i: int| 0 <= i < k ==> old(self).f.ensures((#[trigger] old(self).rest[i],), None))
+                   && (if k < old(self).rest.len() { r is Some && old(self).f.ensures((old(self).rest[k],), r) && final(self).rest == old(self).rest.skip(k + 1) }
+                       else { r is None && final(self).rest.len() == 0 }) }),
+        { unimplemented!() }
+    }
+    pub mod ext {
+        pub struct ModbusRole { pub role: &'static str }
+        pub enum SpecificExtension { ModbusRole(ModbusRole), Other(u8) }
+        pub struct Extension { pub content: SpecificExtension }
+    }
 }}
-//@trusted rx509::x509::Certificate::parse: opaque DER parser (`spec_parse`, uninterpreted)
+//@trusted rx509::x509::Certificate::parse / Extensions::parse: opaque DER parsers (`spec_parse`, `exts`); Vec::into_iter().filter_map(f).next() on the extension list: std semantics of filter_map restated for this element type
 pub mod common { pub mod phys {
     use vstd::prelude::*;
     pub struct PhysLayer { pub ghost tls: Option<crate::tokio_rustls::ServerConnection>, pub ghost client_tls: Option<crate::tokio_rustls::ClientSession> }
@@ -253,11 +295,65 @@ pub mod tcp { pub mod tls {
         use crate::common::phys::PhysLayer;
         use crate::server::task::AuthorizationType;
         use crate::server::AuthorizationHandler;
-        // the role of a certificate: its single Modbus role extension (None when there is none or more than one)
-        pub uninterp spec fn spec_role(cert: rx509::x509::Certificate) -> Option<Seq<char>>;
-//@fn rodbus/src/tcp/tls/server.rs | extract_modbus_role | tags=C09 | ext_body
+        // the role of a certificate: its single Modbus role extension (None when the extensions are absent or do not parse, or when
+        // there is no role extension or more than one)
+        pub open spec fn role_of(e: rx509::x509::ext::Extension) -> Option<&'static str> {
+            match e.content { rx509::x509::ext::SpecificExtension::ModbusRole(r) => Some(r.role), _ => None }
+        }
+        pub open spec fn roles(s: Seq<rx509::x509::ext::Extension>) -> Seq<&'static str>
+            decreases s.len()
+        {
+            if s.len() == 0 { Seq::empty() } else { (match role_of(s[0]) { Some(r) => seq![r], None => Seq::empty() }) + roles(s.skip(1)) }
+        }
+        pub open spec fn spec_role(cert: rx509::x509::Certificate) -> Option<Seq<char>> {
+            match cert.tbs_certificate.value.extensions {
+                Some(x) => match x.exts { Some(items) => if roles(items).len() == 1 { Some(roles(items)[0]@) } else { None }, None => None },
+                None => None,
+            }
+        }
+        pub open spec fn first_role_at(s: Seq<rx509::x509::ext::Extension>, k: int) -> bool {
+            0 <= k < s.len() && (forall|i: int| 0 <= i < k ==> role_of(#[trigger] s[i]) is None) && role_of(s[k]) is Some
+        }
+        pub open spec fn has_role(s: Seq<rx509::x509::ext::Extension>) -> bool { exists|k: int| #[trigger] first_role_at(s, k) }
+        pub open spec fn no_roles(s: Seq<rx509::x509::ext::Extension>) -> bool { forall|i: int| 0 <= i < s.len() ==> role_of(#[trigger] s[i]) is None }
+        // skipping a prefix of role-less extensions does not change the roles; a role at position k is the first role
+        pub proof fn lemma_roles_skip(s: Seq<rx509::x509::ext::Extension>, k: int)
+            requires 0 <= k <= s.len(), forall|i: int| 0 <= i < k ==> role_of(#[trigger] s[i]) is None,
+            ensures roles(s) == roles(s.skip(k)),
+            decreases k
+        {
+            if k > 0 {
+                lemma_roles_skip(s.skip(1), k - 1);
+                assert(s.skip(1).skip(k - 1) == s.skip(k));
+                assert(roles(s) == Seq::<&'static str>::empty() + roles(s.skip(1)));
+            } else { assert(s.skip(0) == s); }
+        }
+        pub proof fn lemma_roles_head(s: Seq<rx509::x509::ext::Extension>, k: int)
+            requires 0 <= k < s.len(), forall|i: int| 0 <= i < k ==> role_of(#[trigger] s[i]) is None, role_of(s[k]) is Some,
+            ensures roles(s) == seq![role_of(s[k])->0] + roles(s.skip(k + 1)),
+        {
+            lemma_roles_skip(s, k);
+            assert(s.skip(k).skip(1) == s.skip(k + 1));
+            assert(s.skip(k)[0] == s[k]);
+        }
+// [C09] Ok(role) exactly for a certificate with a single Modbus role extension, and then that role
+//@fn rodbus/src/tcp/tls/server.rs | extract_modbus_role | tags=C08,C09 | r10 r10id=0,1,2 r27
 //@|    ensures r matches Ok(role) ==> spec_role(*cert) == Some(role@), r is Err ==> spec_role(*cert) is None,
-//@trusted extract_modbus_role: assumed contract (rx509 extension parsing with iterator adapters): Ok(role) exactly when the certificate carries a single Modbus role extension
+//@closure 0| || -> (e: String)
+//@closure 1| |err: rx509::x509::ASNError| -> (e: String)
+//@closure 2| |ext: rx509::x509::ext::Extension| -> (o: Option<&'static str>) ensures o == role_of(ext)
+//@closure 3| || -> (e: String)
+//@tryexit 2| let items = extensions.items;
+//@tryexit 2| assert(forall|i: int| 0 <= i < items.len() ==> role_of(#[trigger] items[i]) is None);
+//@tryexit 2| lemma_roles_skip(items, items.len() as int);
+//@tryexit 2| assert(items.skip(items.len() as int).len() == 0);
+//@exit 0| let items = extensions.items; let k1 = it.ks[0]; let k2 = it.ks[1];
+//@exit 0| assert(first_role_at(items, k1)); assert(first_role_at(items.skip(k1 + 1), k2));
+//@exit 0| lemma_roles_head(items, k1); lemma_roles_head(items.skip(k1 + 1), k2);
+//@exit 1| let items = extensions.items; let k1 = it.ks[0];
+//@exit 1| assert(first_role_at(items, k1) && role_of(items[k1]) == Some(role)); assert(no_roles(items.skip(k1 + 1)));
+//@exit 1| lemma_roles_head(items, k1); lemma_roles_skip(items.skip(k1 + 1), items.skip(k1 + 1).len() as int);
+//@exit 1| assert(items.skip(k1 + 1).skip(items.skip(k1 + 1).len() as int).len() == 0);
         impl TlsServerConfig {
 // [C09] no Modbus layer exists before the handshake succeeded; in authorization mode the session's role is the role extension of the
 // client's OWN certificate (the first one it presented), and a client whose certificate parses to no role is refused
